@@ -440,3 +440,42 @@ M("c19_bumps_accessor_shared", ["C19"], ["C19.R1"], [
     pub(crate) fn peek_len(&self) -> usize {
         unsafe { (*(&raw const self.bumps).cast_mut()).get_mut().map(|v| v.len()).unwrap_or(0) }
     }""")])
+
+# ---------------------------------------------------------------- C14
+M("c14_reserve_claimed_creates_chunk", ["C14"], ["C14.R2"], [
+    ("src/raw_bump.rs", """            ChunkClass::Claimed => Err(E::claimed()),
+            ChunkClass::Unallocated => {
+                let Ok(layout) = Layout::from_size_align(additional, 1) else {""", """            ChunkClass::Claimed | ChunkClass::Unallocated => {
+                let Ok(layout) = Layout::from_size_align(additional, 1) else {""")])
+M("c14_claim_without_already_claimed_check", ["C14"], ["C14.R1"], [
+    ("src/raw_bump.rs", """        if self.chunk.get().is_claimed() {
+            already_claimed();
+        }
+""", """        if self.chunk.get().is_claimed() && false {
+            already_claimed();
+        }
+""")])
+M("c14_reclaim_restores_saved_chunk", ["C14"], ["C14.R1"], [
+    ("src/bump_claim_guard.rs", "self.original.raw.reclaim(&self.claimant.raw);", "self.original.raw.reclaim(&self.original.raw);")])
+M("c14_dummy_capacity_minus_8", ["C14"], ["C14.R3"], [
+    ("src/chunk/header.rs", "pos: Cell::new(unsafe { UP_CHUNK_PTR.cast().byte_add(16) }),", "pos: Cell::new(unsafe { UP_CHUNK_PTR.cast().byte_add(8) }),")])
+M("c14_dummy_down_swapped", ["C14"], ["C14.R3"], [
+    ("src/chunk/header.rs", """                pos: Cell::new(DOWN_CHUNK_PTR.cast()),
+                // SAFETY: Due to `align(16)`, `ChunkHeader`'s size is `>= 16`, so a `byte_add` of 16 is in bounds.
+                // We could also use `.add(1)` here, but we currently guarantee a capacity of -16
+                end: unsafe { DOWN_CHUNK_PTR.cast().byte_add(16) },""", """                pos: Cell::new(unsafe { DOWN_CHUNK_PTR.cast().byte_add(16) }),
+                end: DOWN_CHUNK_PTR.cast(),""")])
+M("c14_make_allocated_claimed_ok", ["C14"], ["C14.R2"], [
+    ("src/raw_bump.rs", """        match self.chunk.get().classify() {
+            ChunkClass::Claimed => Err(E::claimed()),
+            ChunkClass::Unallocated => {
+                // When this bump allocator is unallocated, `A` is guaranteed to implement `Default`,
+                // `default_or_panic` will not panic.
+                let new_chunk = NonDummyChunk::new(ChunkSize::MINIMUM, None, A::default_or_panic())?;""", """        match self.chunk.get().classify() {
+            ChunkClass::Claimed => Ok(()),
+            ChunkClass::Unallocated => {
+                // When this bump allocator is unallocated, `A` is guaranteed to implement `Default`,
+                // `default_or_panic` will not panic.
+                let new_chunk = NonDummyChunk::new(ChunkSize::MINIMUM, None, A::default_or_panic())?;""")])
+M("c14_claimed_direction_swapped", ["C14"], ["C14.R3"], [
+    ("src/chunk/header.rs", "if S::UP { UP_CHUNK_PTR } else { DOWN_CHUNK_PTR }", "if S::UP { DOWN_CHUNK_PTR } else { UP_CHUNK_PTR }")])
